@@ -37,15 +37,27 @@ LEVEL_TEXT = ("Theorems (Coq, all inputs / all histories, about the Gallina mode
               "GammaPser returns the k-th partial sum of sum_j x^j/(a(a+1)...(a+j)) times exp(-x + a ln x - GammaLn a) at the first k meeting the 2^-52 stopping test; GammaQcf's modified-Lentz state after n iterations is "
               "(A_{n-1}/A_n, Bt_n/Bt_{n-1}, Bt_n/A_n), i.e. the n-th convergent of the continued fraction with a_i = -i(i-a), b_i = x+2i+1-a (index advanced every iteration), as long as no clamp triggers; "
               "the reference identity e^-x sum_{k<=n} x^k/k! = 1 - (1/n!) RInt_0^x t^n e^-t used by the certified samples. "
-              "NOT theorems: accuracy of Lanczos' GammaLn, of the truncated series / continued fraction / quadrature against the true Gamma, P, Q for all (x,a), monotonicity in x, "
-              "the range [0,1] for a <= 100 in floating point, convergence of the Halley iteration of Inv_GammaP, Binomial_Coefficient for n > 170. These clauses are covered by "
+              "Second part (all over the reals, i.e. about the method, not about rounding): GammaLn/Gamma exit for x <= 0, answer for x > 0, Gamma > 0 (C06_gamma_domain); "
+              "the recurrence Gamma(x+1) = x Gamma(x) e^d, GammaLn(x+1) = GammaLn(x) + ln x + d with |d| <= 1e-14 for EVERY x in [2^-10, 10001] (C06_lanczos_recurrence_partial part 1, Coq-Interval Taylor models on the Lanczos formula; partial: not x < 2^-10 or x > 10001); "
+              "by induction along it |GammaLn(n+1) - ln n!| <= (n+1) 1e-14 and n!/Gamma(n+1) within e^(+-(n+1)1e-14) at every integer n <= 10000 (C06_lanczos_recurrence_partial part 2; partial: integer arguments); "
+              "the series branch at every integer shape a = q+1 and every x > 0, whatever the stopping index k: GammaPser = Ptr q!/exp(GammaLn a) with Ptr = e^-x sum_{i=q+1}^{q+1+k} x^i/i!, 0 <= Ptr <= P(x,a) <= 1 for the TRUE P(x,a) = (1/q!) RInt_0^x t^q e^-t, "
+              "truncation error = e^-x times the exponential remainder and, on x < a+1, at most Ptr 2^-52 (q+k+3) by the loop's stopping test (C06_gser_integer_shape: with the previous theorem this is the accuracy and range clause for integer shapes on the series branch); "
+              "Integrate/Adaptive_Simpson_Integration are exact on every cubic for every depth, tolerance and order of limits, antisymmetric in the limits, 0 on an empty interval (C06_integrate_laws); "
+              "GammaQint's panel loop returns the sum of adjacent panels [t1+kw, min(x,t1+(k+1)w)] up to the first n with x <= t1+nw, for every integrand/start/width, and the exact integral on cubics (C06_panel_loop_tiles); "
+              "GammaQint for every a > 0 and x never exits or exhausts the panel fuel: 0 right of a-1+10 sqrt a, 1 left of max(0,a-1-10 sqrt a), else 1 - clamp01(n <= 20 panels) (C06_gammaq_int_regions); for a > 100 GammaQ answers a probability at every x >= 0 and Inv_GammaP answers for every p (C06_large_a_total); "
+              "Inv_GammaP's guards and Inv_GammaQ(q,a) = Inv_GammaP(1-q,a) (C06_inverse_guards); for 0 < p < 1 both initial guesses and every Halley iterate are positive for any number of steps, so the answer is > 0 (C06_inverse_positive); "
+              "an exact solution is returned untouched and the answer is an iterate x_j of the Halley recurrence and an early stop means |correction| < 1e-8 answer (C06_halley_trace); "
+              "Binomial_Coefficient for every n > 170, 0 <= k <= n answers floor(1/2 + exp(GammaLn(n+1)-GammaLn(k+1)-GammaLn(n-k+1))) without touching the table, and symmetry holds for every n (C06_binomial_large). "
+              "NOT theorems: everything about rounding in double arithmetic (the theorems above are about the real-number model; the double evaluation is tied to it only by the bit-level correspondence run and judged by S3/S4); accuracy of GammaLn at non-integer arguments against the true ln Gamma; "
+              "accuracy of the series at non-integer shapes, of the continued fraction and of the quadrature against the true P, Q; monotonicity in x; "
+              "the range [0,1] for a <= 100 in floating point; convergence of the Halley iteration of Inv_GammaP (inverse round trip); Pascal's rule and exactness of Binomial_Coefficient for n > 170. These clauses are covered by "
               "(a) kernel-certified samples: the library's doubles at generated points are proved by Coq-Interval to lie within the stated tolerance (1e-12 for a <= 100, 1e-3 above, absolute) of the closed form for integer a "
               "(and of (n-1)!, ln (n-1)! for Gamma/GammaLn), dense around x = a+1 and a = 100, and (b) implementation-side predicates against an independent 60-digit reference "
               "(Python decimal: positive-term series for P with a Stirling log-gamma), evaluated on every generated input: range, P+Q, monotonicity, accuracy, recurrences, Pascal, symmetry, inverse round trip. "
               "Known findings still in the tree: Inv_GammaP = NaN for a > 100 and p within 1e-8 of 1 (K-C06-2); Inv_GammaP unrefined when the solution is a subnormal double (K-C06-4); "
               "GammaQ slightly negative / GammaP slightly above 1 (by less than 1e-12) for shapes a below about 4e-15 (K-C06-5).")
 LEVEL_NOTE = ("Coq 8.16.1 kernel; theorems over R use the standard library's real-number axioms (and Classical_Prop.classic through Coquelicot), the Z/nat theorems are axiom-free; "
-              "certified samples additionally rest on Coq-Interval (primitive 63-bit integers through Bignums). Hand-written model tied by differential correspondence "
+              "certified samples and the theorem C06_lanczos_recurrence_partial additionally rest on Coq-Interval (primitive 63-bit integers through Bignums; files C06_Proofs_Lanczos1-3.v take about a minute of CPU each). Hand-written model tied by differential correspondence "
               "(extraction with ExtrOcamlBasic only); exp, log, sqrt, pow, floor are the same libm functions on both sides (modelled by exp, ln, sqrt, Rpower, Int_part in R). The two uncapped while loops carry a fuel of 100000 iterations "
               "and the panel loop of GammaQint a fuel of 64 in the model (exhaustion prints FUEL, never a value). The Lentz theorem carries the premises that no clamp |d|,|c| < FPMIN triggers and x+1-a <> 0. "
               "Integrate / Adaptive_Simpson_Integration are modelled in C06_Model.v as far as GammaQint uses them (depth 20, warning output ignored).")
